@@ -15,6 +15,21 @@ func lowerFirst(s string) string {
 	return strings.ToLower(s[0:1]) + s[1:]
 }
 
+// fieldIdentifier returns the Dart field name used for a JSON name :
+// lower case first, and the characters not allowed in identifiers
+// (like the dash of "my-key") replaced by '_'
+func fieldIdentifier(jsonName string) string {
+	out := []rune(lowerFirst(jsonName))
+	for i, r := range out {
+		isLetter := 'a' <= r && r <= 'z' || 'A' <= r && r <= 'Z' || r == '_' || r == '$'
+		isDigit := '0' <= r && r <= '9'
+		if !(isLetter || isDigit && i != 0) {
+			out[i] = '_'
+		}
+	}
+	return string(out)
+}
+
 // typeName returns the Dart string used to refer to this type
 // (not to be confused with the type declaration)
 func typeName(typ an.Type) string {
@@ -204,7 +219,7 @@ func (buf buffer) codeForStruct(typ *an.Struct) (gen.Declaration, []string) {
 			tn = typeName(field.Type)
 		}
 
-		dartFieldName := lowerFirst(field.JSONName()) // convert to dart convention
+		dartFieldName := fieldIdentifier(field.JSONName()) // convert to dart convention
 
 		fields = append(fields, fmt.Sprintf("final %s %s;", tn, dartFieldName))
 		initFields = append(initFields, fmt.Sprintf("this.%s", dartFieldName))
